@@ -256,6 +256,8 @@ def class_closure(pm: PM, cls: ClassInfo, entry: FuncInfo) -> list[FuncInfo]:
             for t in ctx.resolve_call(call) + ctx.func_refs(call):
                 if t.fn is not None and t.fn.cls is not None and t.fn.cls in cls.mro and (t.recv == "self" or t.via in ("class", "ref")):
                     stack.append(t.fn)
+                elif t.fn is not None and t.fn.cls is None and t.via == "modfunc" and t.fn.name.startswith("_") and t.fn.module is entry.module:
+                    stack.append(t.fn)  # private function of the same module
     return list(seen.values())
 
 
@@ -486,33 +488,73 @@ def holds(t: ast.expr, pol: bool, op: str, left, right) -> bool:
     return any(o == op and left(a) and right(b) for o, a, b in cmp_forms(t, pol))
 
 
-def if_chain(node: ast.If) -> tuple[list[tuple[ast.expr, list[ast.stmt]]], list[ast.stmt] | None]:
-    """branches of an if / elif / ... chain [(test, body)] and the final else body (None if absent)"""
+_SIBLINGS: dict[int, list[ast.stmt]] = {}
+
+
+def _following(fn_node: ast.AST, st: ast.stmt) -> list[ast.stmt]:
+    """the statements that follow ``st`` in its own block"""
+    key = id(fn_node)
+    if key not in _SIBLINGS:
+        table: dict[int, list[ast.stmt]] = {}
+        for n in ast.walk(fn_node):
+            for f in ("body", "orelse", "finalbody"):
+                blk = getattr(n, f, None)
+                if isinstance(blk, list):
+                    for i, x in enumerate(blk):
+                        if isinstance(x, ast.stmt):
+                            table[id(x)] = blk[i + 1:]
+        _SIBLINGS[key] = table  # type: ignore
+        _SIBLINGS[-key] = fn_node  # keep the node alive as long as its table
+    return _SIBLINGS[key].get(id(st), [])  # type: ignore
+
+
+def if_chain(node: ast.If, fn_node: ast.AST | None = None) -> tuple[list[tuple[ast.expr, list[ast.stmt]]], list[ast.stmt] | None]:
+    """branches of an if / elif / ... chain [(test, body)] and the final else body (None if absent).  With ``fn_node``:
+    a branch without else whose body always exits continues with the statements that follow it - `if a: return x` /
+    `if b: return y` / `raise` is the chain a -> x, b -> y, default raise (guard-clause spelling of the same chain)."""
+    from ..cfg import always_exits
     out = []
     cur = node
+    outer = node  # the statement of the enclosing block that the current elif-segment belongs to
     while True:
         out.append((cur.test, cur.body))
         if len(cur.orelse) == 1 and isinstance(cur.orelse[0], ast.If):
             cur = cur.orelse[0]
             continue
-        return out, (cur.orelse or None)
+        if cur.orelse:
+            return out, cur.orelse
+        # no else: when every branch of this segment exits, the statements after it are the rest of the chain
+        seg_exits = all(always_exits(b) for _, b in out)
+        if fn_node is not None and seg_exits:
+            rest = _following(fn_node, outer)
+            if rest and isinstance(rest[0], ast.If):
+                cur = outer = rest[0]
+                continue
+            return out, (rest or None)
+        return out, None
 
 
 def chain_heads(fn_node: ast.AST) -> list[ast.If]:
-    """the If statements of a function that are not the `elif` continuation of another one"""
+    """the If statements of a function that are not the continuation of another one (`elif`, or the sibling that follows
+    an exiting branch without else)"""
+    from ..cfg import always_exits
     conts = set()
     for n in walk_no_nested(fn_node):
         if isinstance(n, ast.If) and len(n.orelse) == 1 and isinstance(n.orelse[0], ast.If):
             conts.add(id(n.orelse[0]))
+        elif isinstance(n, ast.If) and not n.orelse and always_exits(n.body):
+            rest = _following(fn_node, n)
+            if rest and isinstance(rest[0], ast.If):
+                conts.add(id(rest[0]))
     return [n for n in walk_no_nested(fn_node) if isinstance(n, ast.If) and id(n) not in conts]
 
 
-def switch_cases(node: ast.If) -> tuple[str, list[tuple[set, list[ast.stmt]]], list[ast.stmt] | None] | None:
+def switch_cases(node: ast.If, fn_node: ast.AST | None = None) -> tuple[str, list[tuple[set, list[ast.stmt]]], list[ast.stmt] | None] | None:
     """read an if / elif chain as a multi-way branch on ONE subject (the normal form of `match subject:`):
     every test is `subject == literal`, `subject is True/False/None`, `isinstance(subject, C)`, `subject in (literals)`
     or an `or` of those.  -> (subject text, [(set of case keys, body)], default body).  Keys: python constants, or
     'type:<name>' for isinstance tests.  None when the chain does not have this shape."""
-    branches, default = if_chain(node)
+    branches, default = if_chain(node, fn_node)
     subject = None
     out = []
 
